@@ -98,12 +98,14 @@ Definition resolver_of (exp : cred_status) (a : answer) (kind : int) : resolver 
   else if Uint63.eqb kind 1%uint63 then (fun _ => None)
   else (fun _ => Some empty_answer).
 
-Fixpoint apply_rops (exp : cred_status) (a : answer) (reg : registry) (ops : list rop) : registry :=
-  match ops with
-  | [] => reg
-  | RReg ty k :: r => apply_rops exp a (reg_register reg ty (resolver_of exp a k)) r
-  | RDel ty :: r => apply_rops exp a (reg_delete reg ty) r
+(* the registry after the history (Status.reg_history, the function of C09_registry_history) *)
+Definition regop_of (exp : cred_status) (a : answer) (o : rop) : regop :=
+  match o with
+  | RReg ty k => ORegister ty (resolver_of exp a k)
+  | RDel ty => ODelete ty
   end.
+Definition apply_rops (exp : cred_status) (a : answer) (reg : registry) (ops : list rop) : registry :=
+  reg_history reg (map (regop_of exp a) ops).
 
 (* what coerceCredentialStatus is given *)
 Inductive raw_cs := mkrcs (ty : string) (nonce : limbs).
@@ -137,7 +139,8 @@ Inductive scase :=
     (o_cls : int)        (* ValidateCredentialStatus: 0 nil, 1 ErrCredentialIsRevoked,
                             2 any other error, 3 panic *)
 | CHttp (id : int) (transport_ok : bool) (code : limbs) (len : limbs) (read_ok : bool)
-    (wire : option raw_wire)  (* the body as encoding/json sees it; None = refused *)
+    (core : string) (padc padn : int) (* the bytes the body delivered: core ++ padc^padn *)
+    (wire : option raw_wire)  (* the members as encoding/json sees them; None = refused *)
     (close_ok : bool) (obs : hobs)
 | CCoerce (id : int) (sh : raw_shape) (obs : cobs)
 | CHex (id : int) (s : string) (obs : raw_hexf)
@@ -151,11 +154,15 @@ Inductive scase :=
 Definition case_id (c : scase) : int :=
   match c with
   | CValidate id _ _ _ _ _ _ _ _ _ => id
-  | CHttp id _ _ _ _ _ _ _ => id
+  | CHttp id _ _ _ _ _ _ _ _ _ _ => id
   | CCoerce id _ _ => id
   | CHex id _ _ => id
   | CE2E id _ _ _ _ _ _ _ _ => id
   end.
+
+Definition nat_of_int (i : int) : nat := Z.to_nat (Uint63.to_Z i).
+Fixpoint pad_string (n : nat) (c : ascii) : string :=
+  match n with O => EmptyString | S m => String c (pad_string m c) end.
 
 (* ---- comparison helpers ---- *)
 Definition hexf_eqb (a b : hexf) : bool :=
@@ -231,11 +238,13 @@ Definition agree (c : scase) : bool :=
         else validate_credential_status P q reg [OptRegistry None] cs in
       Uint63.eqb m_ts o_ts && m_root_ok && negb (ts_miss P (a_issuer a))
       && Uint63.eqb (cls_of m_res) o_cls
-  | CHttp _ tok code len read_ok wire close_ok obs =>
-      let h := if tok then HResp (z_of_limbs code) (z_of_limbs len) read_ok
-                                 (parsed_of wire) close_ok
-               else HTransportErr in
-      match http_resolve h, obs with
+  | CHttp _ tok code len read_ok core padc padn wire close_ok obs =>
+      let body := append core (pad_string (nat_of_int padn) (ascii_of_nat (nat_of_int padc))) in
+      let r := if tok then http_resolve_body (z_of_limbs code) body read_ok close_ok
+                             (option_map wire_of wire)
+               else http_resolve HTransportErr in
+      (Z.of_nat (String.length body) =? z_of_limbs len) &&
+      match r, obs with
       | Ok a, HoOk a' => answer_eqb a (answer_of a')
       | Err _, HoErr => true
       | _, _ => false
